@@ -149,6 +149,10 @@ def check_model(case, rec):
     rec.metric('dense_err', err / scale)
     own = mpo.as_matrix()
     require(np.linalg.norm(np.asarray(own) - M) <= 1e-12 * scale, 'as_matrix differs from the independent contraction')
+    if M.shape[0] <= 256:
+        # the sparse matrix form as well (couplings far below one put very different scales into the bond channels)
+        own_s = np.asarray(mpo.as_matrix(sparse_format=True).todense())
+        require(np.linalg.norm(own_s - M) <= 1e-12 * scale, 'sparse as_matrix differs from the independent contraction', err=float(np.linalg.norm(own_s - M)), norm=nref)
     if m not in ('linear_c', 'linear_a'):
         eh = np.linalg.norm(M - M.conj().T)
         require(eh <= 1e-12 * scale, 'Hamiltonian is not Hermitian for real parameters', err=eh)
